@@ -513,3 +513,204 @@ Proof.
   - destruct (rstep true k (pipe s) a (s_r s)) as [r| |] eqn:E; try discriminate. intros [= <- <-].
     apply rstep_ext in E. split; [exact E|reflexivity].
 Qed.
+
+(** ** A completed scenario ends quiescent (the wrap-up drops whatever is alive) *)
+Lemma run_acts_app k : forall l1 l2 i s s' ts,
+  run_acts true k i (l1 ++ l2) s = (s', ts, OEnd) ->
+  exists s1 ts1 ts2, run_acts true k i l1 s = (s1, ts1, OEnd) /\
+                     run_acts true k (i + length l1) l2 s1 = (s', ts2, OEnd).
+Proof.
+  induction l1 as [|a l1 IH]; intros l2 i s s' ts H; cbn [app] in H.
+  - exists s, [], ts. split; [reflexivity|]. cbn. rewrite Nat.add_0_r. exact H.
+  - cbn [run_acts] in H |- *. destruct (step true k a s) as [[s1 t]| |]; try discriminate.
+    destruct (run_acts true k (S i) (l1 ++ l2) s1) as [[s2 ts2] o2] eqn:E. injection H as <- <- ->.
+    apply IH in E. destruct E as (s3 & ta & tb & E1 & E2).
+    rewrite E1. exists s3, (t :: ta), tb. split; [reflexivity|].
+    cbn [length]. replace (i + S (length l1))%nat with (S i + length l1)%nat by lia. exact E2.
+Qed.
+
+Lemma run_acts_one k a i s s' ts :
+  run_acts true k i [a] s = (s', ts, OEnd) -> exists t, step true k a s = Ok (s', t).
+Proof.
+  cbn [run_acts]. destruct (step true k a s) as [[s1 t]| |]; try discriminate.
+  intros [= <- _]. exists t. reflexivity.
+Qed.
+
+Lemma run_acts_opt k (c : bool) a i s s' ts :
+  run_acts true k i (if c then [a] else []) s = (s', ts, OEnd) ->
+  if c then exists t, step true k a s = Ok (s', t) else s' = s.
+Proof.
+  destruct c; [apply run_acts_one|]. cbn. intros [= <- _]. reflexivity.
+Qed.
+
+Lemma wdropfut_quiet k w w' :
+  WInv k w -> wstep true k (AWDropFut []) w = Ok w' -> w_fut w' = None /\ w_buf w' = w_buf w.
+Proof.
+  intros [HC Hex] H. unfold wstep in H.
+  change (w_fut (wclear w)) with (w_fut w) in H.
+  unfold cfg_of in HC. destruct (w_fut w) as [[o|one items|one first o]|] eqn:Ef; [| | |discriminate];
+    cbn [fut_op] in H.
+  - destruct (wop_cancel true k o (wset_ans [] (wclear w))) as [[[w1 r1] b1]| |] eqn:Ep; try discriminate.
+    injection H as <-. eapply wop_cancel_spec in Ep; [|exact HC]. destruct Ep as (A & B & C).
+    split; [reflexivity|]. cbn. exact A.
+  - injection H as <-. split; reflexivity.
+  - destruct (wop_cancel true k o (wset_ans [] (wclear w))) as [[[w1 r1] b1]| |] eqn:Ep; try discriminate.
+    injection H as <-. eapply wop_cancel_spec in Ep; [|exact HC]. destruct Ep as (A & B & C).
+    split; [reflexivity|]. cbn. exact A.
+Qed.
+
+Lemma wdropbuf_quiet k w w' :
+  wstep true k AWDropBuf w = Ok w' -> w_buf w' = None /\ w_fut w' = w_fut w.
+Proof.
+  unfold wstep. change (w_buf (wclear w)) with (w_buf w). destruct (w_buf w); [|discriminate].
+  intros [= <-]. split; reflexivity.
+Qed.
+
+Lemma wdropend_quiet k w w' :
+  wstep true k AWDropEnd w = Ok w' -> w_buf w' = w_buf w /\ w_fut w' = w_fut w.
+Proof.
+  unfold wstep. destruct (w_alive (wclear w) && _); [|discriminate]. intros [= <-]. split; reflexivity.
+Qed.
+
+Lemma rdropfut_quiet k avail r r' :
+  RInv' k r -> rstep true k avail (ARDropFut []) r = Ok r' -> r_cur_op r' = None /\ r_vec r' = r_vec r.
+Proof.
+  intros HI H. unfold rstep in H.
+  assert (HI1 : RInv' k (rset_ans [] (rclear r))) by exact HI.
+  change (length (r_taken (rclear r))) with (length (r_taken (rset_ans [] (rclear r)))) in H.
+  change (r_vec r) with (r_vec (rset_ans [] (rclear r))).
+  set (r1 := rset_ans [] (rclear r)) in *. clearbody r1. clear HI.
+  destruct HI1 as (HC & Hex & Hvec). unfold RInv, rcfg_of, r_cur_op in HC.
+  assert (Hc : forall o r2 s2 v2,
+            RCore k r1 (RCOp o) (held_of r1) ->
+            rop_cancel true k (length (r_taken r1)) avail o r1 = Ok (r2, s2, v2) ->
+            r_vec r2 = r_vec r1 /\ r_fut r2 = r_fut r1 /\ r_ad r2 = r_ad r1).
+  { intros o r2 s2 v2 HCo Ep. eapply rop_cancel_spec in Ep; [|exact HCo|apply rgrow_refl].
+    destruct Ep as (A & B & C & _). auto. }
+  destruct (r_fut r1) as [[o| |o| |o]|] eqn:Ef; cbn [rfut_op] in HC.
+  - assert (Had : r_ad r1 = None) by (apply Hex; discriminate).
+    destruct (rop_cancel true k _ avail o r1) as [[[r2 s2] v2]| |] eqn:Ep; try discriminate.
+    cbn [lift_res] in H. injection H as <-. destruct (Hc _ _ _ _ HC Ep) as (A & B & C).
+    unfold r_cur_op. cbn. rewrite C, Had. auto.
+  - assert (Had : r_ad r1 = None) by (apply Hex; discriminate).
+    injection H as <-. unfold r_cur_op. cbn. rewrite Had. auto.
+  - assert (Had : r_ad r1 = None) by (apply Hex; discriminate).
+    destruct (rop_cancel true k _ avail o r1) as [[[r2 s2] v2]| |] eqn:Ep; try discriminate.
+    cbn [lift_res] in H. injection H as <-. destruct (Hc _ _ _ _ HC Ep) as (A & B & C).
+    unfold r_cur_op. cbn. rewrite C, Had. auto.
+  - assert (Had : r_ad r1 = None) by (apply Hex; discriminate).
+    injection H as <-. unfold r_cur_op. cbn. rewrite Had. auto.
+  - assert (Had : r_ad r1 = None) by (apply Hex; discriminate).
+    destruct (rop_cancel true k _ avail o r1) as [[[r2 s2] v2]| |] eqn:Ep; try discriminate.
+    cbn [lift_res] in H. injection H as <-. destruct (Hc _ _ _ _ HC Ep) as (A & B & C).
+    unfold r_cur_op. cbn. rewrite C, Had. auto.
+  - destruct (r_ad r1) as [[|o| |]|] eqn:Ea; try discriminate.
+    + injection H as <-. unfold r_cur_op. cbn. rewrite Ef. auto.
+    + destruct (rop_cancel true k _ avail o r1) as [[[r2 s2] v2]| |] eqn:Ep; try discriminate.
+      cbn [lift_res] in H. injection H as <-. destruct (Hc _ _ _ _ HC Ep) as (A & B & C).
+      unfold r_cur_op. cbn. rewrite B. try rewrite Ef. auto.
+    + injection H as <-. unfold r_cur_op. cbn. rewrite Ef. auto.
+Qed.
+
+Lemma rtake_quiet k avail r r' :
+  rstep true k avail ATakeVec r = Ok r' -> r_cur_op r' = r_cur_op r.
+Proof.
+  unfold rstep. destruct (r_vec (rclear r)); [|discriminate]. intros [= <-]. reflexivity.
+Qed.
+
+Lemma rdropend_quiet k avail r r' :
+  rstep true k avail ARDropEnd r = Ok r' -> r_cur_op r' = r_cur_op r.
+Proof.
+  unfold rstep. destruct (r_alive (rclear r) && _ && _); [|discriminate]. intros [= <-]. reflexivity.
+Qed.
+
+Lemma step_w k a s s' t : step true k (AW a) s = Ok (s', t) -> wstep true k a (s_w s) = Ok (s_w s') /\ s_r s' = s_r s.
+Proof.
+  unfold step. destruct (wstep true k a (s_w s)); try discriminate. intros [= <- _]. split; reflexivity.
+Qed.
+Lemma step_r k a s s' t : step true k (AR a) s = Ok (s', t) -> rstep true k (pipe s) a (s_r s) = Ok (s_r s') /\ s_w s' = s_w s.
+Proof.
+  unfold step. destruct (rstep true k (pipe s) a (s_r s)); try discriminate. intros [= <- _]. split; reflexivity.
+Qed.
+
+Theorem completed_run_quiescent k acts s ts :
+  run true k acts = (s, ts, OEnd) -> quiescent s.
+Proof.
+  unfold run. destruct (run_acts true k 0 acts st_init) as [[s1 ts1] o1] eqn:E1.
+  pose proof (run_acts_inv k _ _ _ _ _ _ (inv_init k) E1) as HI1.
+  destruct o1; [|discriminate|discriminate].
+  destruct (run_acts true k (length acts) (wrapup s1) s1) as [[s2 ts2] o2] eqn:E2.
+  intros [= -> _ ->]. unfold wrapup in E2.
+  apply run_acts_app in E2. destruct E2 as (sa & ? & ? & Ea & E2).
+  apply run_acts_app in E2. destruct E2 as (sb & ? & ? & Eb & E2).
+  apply run_acts_app in E2. destruct E2 as (sc & ? & ? & Ec & E2).
+  apply run_acts_app in E2. destruct E2 as (sd & ? & ? & Ed & E2).
+  apply run_acts_app in E2. destruct E2 as (se & ? & ? & Ee & Ef).
+  apply run_acts_opt in Ea, Eb, Ec, Ed, Ee, Ef.
+  pose proof HI1 as (HW1 & HR1 & _).
+  (* writer side *)
+  assert (Wa : w_fut (s_w sa) = None /\ w_buf (s_w sa) = w_buf (s_w s1) /\ s_r sa = s_r s1 /\ Inv k sa).
+  { destruct (is_some (w_fut (s_w s1))) eqn:C.
+    - destruct Ea as [t Ea]. pose proof (step_inv _ _ _ _ _ HI1 Ea) as HIa. apply step_w in Ea.
+      destruct Ea as [Ea Er]. apply wdropfut_quiet in Ea; [|exact HW1]. destruct Ea. auto.
+    - subst sa. apply is_some_false in C. auto. }
+  destruct Wa as (Wa1 & Wa2 & Wa3 & HIa).
+  assert (Wb : w_fut (s_w sb) = None /\ w_buf (s_w sb) = None /\ s_r sb = s_r s1 /\ Inv k sb).
+  { destruct (is_some (w_buf (s_w s1))) eqn:C.
+    - destruct Eb as [t Eb]. pose proof (step_inv _ _ _ _ _ HIa Eb) as HIb. apply step_w in Eb.
+      destruct Eb as [Eb Er]. apply wdropbuf_quiet in Eb. destruct Eb as [B1 B2].
+      split; [congruence|]. split; [exact B1|]. split; [congruence|exact HIb].
+    - subst sb. apply is_some_false in C. split; [exact Wa1|]. split; [congruence|]. auto. }
+  destruct Wb as (Wb1 & Wb2 & Wb3 & HIb).
+  assert (Wc : w_fut (s_w sc) = None /\ w_buf (s_w sc) = None /\ s_r sc = s_r s1 /\ Inv k sc).
+  { destruct (w_alive (s_w s1)).
+    - destruct Ec as [t Ec]. pose proof (step_inv _ _ _ _ _ HIb Ec) as HIc. apply step_w in Ec.
+      destruct Ec as [Ec Er]. apply wdropend_quiet in Ec. destruct Ec as [C1 C2].
+      split; [congruence|]. split; [congruence|]. split; [congruence|exact HIc].
+    - subst sc. auto. }
+  destruct Wc as (Wc1 & Wc2 & Wc3 & HIc).
+  (* reader side *)
+  assert (Rd : r_cur_op (s_r sd) = None /\ s_w sd = s_w sc /\ Inv k sd).
+  { destruct (is_some (r_fut (s_r s1)) || ad_live (s_r s1)) eqn:C.
+    - destruct Ed as [t Ed]. pose proof (step_inv _ _ _ _ _ HIc Ed) as HId. apply step_r in Ed.
+      destruct Ed as [Ed Ew]. apply rdropfut_quiet in Ed; [|destruct HIc as (_ & X & _); exact X].
+      destruct Ed. auto.
+    - subst sd. split; [|auto]. rewrite Wc3. apply orb_false_iff in C. destruct C as [C1 C2].
+      apply is_some_false in C1. unfold r_cur_op. rewrite C1. unfold ad_live in C2.
+      destruct (r_ad (s_r s1)) as [[| | |]|]; try discriminate; reflexivity. }
+  destruct Rd as (Rd1 & Rd2 & HId).
+  assert (Re : r_cur_op (s_r se) = None /\ s_w se = s_w sc /\ Inv k se).
+  { destruct (is_some (r_vec (s_r s1))).
+    - destruct Ee as [t Ee]. pose proof (step_inv _ _ _ _ _ HId Ee) as HIe. apply step_r in Ee.
+      destruct Ee as [Ee Ew]. apply rtake_quiet in Ee. split; [congruence|]. split; [congruence|exact HIe].
+    - subst se. auto. }
+  destruct Re as (Re1 & Re2 & HIe).
+  assert (Rf : r_cur_op (s_r s) = None /\ s_w s = s_w sc).
+  { match type of Ef with (if ?c then _ else _) => destruct c end.
+    - destruct Ef as [t Ef]. apply step_r in Ef. destruct Ef as [Ef Ew]. apply rdropend_quiet in Ef.
+      split; congruence.
+    - subst s. auto. }
+  destruct Rf as (Rf1 & Rf2).
+  split; [rewrite Rf2; exact Wc1|]. split; [rewrite Rf2; exact Wc2|exact Rf1].
+Qed.
+
+Theorem completed_run_ledger_empty k acts s ts :
+  run true k acts = (s, ts, OEnd) -> w_lg (s_w s) = lg_empty /\ r_lg (s_r s) = lg_empty.
+Proof.
+  intros H. apply (ledger_balanced k s).
+  - right. exists acts, ts, OEnd. exact H.
+  - eapply completed_run_quiescent; exact H.
+Qed.
+
+Theorem completed_run_balanced : forall k acts s ts,
+  run true k acts = (s, ts, OEnd) ->
+  quiescent s /\ w_lg (s_w s) = lg_empty /\ r_lg (s_r s) = lg_empty
+  /\ Permutation (nseq 0 (N.to_nat (w_next (s_w s)))) (w_sent (s_w s) ++ w_ret (s_w s) ++ w_drop (s_w s)).
+Proof.
+  intros k acts s ts H.
+  pose proof (completed_run_quiescent k acts s ts H) as Q.
+  pose proof (completed_run_ledger_empty k acts s ts H) as [L1 L2].
+  assert (R : reachable k s) by (right; exists acts, ts, OEnd; exact H).
+  destruct (values_accounted k s R) as [P E]. destruct Q as (Q1 & Q2 & Q3).
+  rewrite (E Q1 Q2), app_nil_r in P. repeat split; assumption.
+Qed.
